@@ -396,7 +396,7 @@ def components(m, cut):
     return [sorted(c) for c in nx.connected_components(g)]
 
 
-def make_variant(m, rng, cut, perm=None, kind=''):
+def make_variant(m, rng, cut, perm=None, kind='', check=True):
     """cut: list of bonds (a, b) to cut.  Returns the case dict or None (ambiguous rendering)."""
     parts = components(m, cut)
     rng.shuffle(parts)
@@ -413,7 +413,8 @@ def make_variant(m, rng, cut, perm=None, kind=''):
         orders.append(ol)
         toks.update(stored_tokens(marks))
     pos = {a: (owner[a], orders[owner[a]].index(a)) for a in owner}
-    if not unambiguous(m, pos, toks):
+    amb = not unambiguous(m, pos, toks)
+    if amb and check:
         return None
     edges = {frozenset((owner[a], owner[b])) for a, b in cut}
     names = {i: NAMES[i] for i in range(len(parts))}
@@ -422,7 +423,7 @@ def make_variant(m, rng, cut, perm=None, kind=''):
     defs = ['#%s=%s' % (names[i], texts[i]) for i in range(len(parts))]
     rng.shuffle(defs)
     return {'s': base + '.{' + ','.join(defs) + '}', 'mol': m.dump(), 'kind': kind, 'nparts': len(parts),
-            'texts': texts, 'perm': perm}
+            'texts': texts, 'perm': perm, 'ambiguous': amb}
 
 
 def variants_of(m, rng, budget):
@@ -563,6 +564,61 @@ def in_class_py(before):
     return False
 
 
+def damaged(v, rng):
+    """one slash mark of a variant flipped or deleted: outside the domain, correspondence only"""
+    base, frs = v['s'].split('.{', 1)
+    idx = [i for i, c in enumerate(frs) if c in '/\\']
+    if not idx:
+        return None
+    i = rng.choice(idx)
+    if rng.random() < 0.5:
+        frs = frs[:i] + ('\\' if frs[i] == '/' else '/') + frs[i + 1:]
+    else:
+        frs = frs[:i] + frs[i + 1:]
+    d = dict(v)
+    d['s'] = base + '.{' + frs
+    d['kind'] = 'unjudged:damaged-mark'
+    d['judged'] = False
+    return d
+
+
+def raw_graph_case(rng):
+    """a random small graph with random marks handed to annotate_ez_isomers_cgsmiles directly: validates
+    the model of the third-party pysmiles code on all its branches (dangling token, conflicts, three
+    tagged neighbours, bad token, float order, existing 'ez_isomer' list)"""
+    n = rng.randint(3, 8)
+    keys = rng.sample(range(0, 14), n)
+    mode = rng.random()
+    nodes = []
+    for k in keys:
+        d = {'element': rng.choice(['C', 'C', 'F', 'S', 'P'])}
+        if mode < 0.45 or rng.random() < 0.55:
+            d['ez_isomer_class'] = rng.choice(['/', '\\']) if rng.random() > 0.02 else rng.choice(['x', ''])
+        if rng.random() < 0.05:
+            d['ez_isomer'] = [(9, 9, 9, 9, 'cis')]
+        if rng.random() < 0.2:
+            d['chiral'] = rng.choice('RS')
+        nodes.append([k, d])
+    edges = []
+    seen = set()
+    for i in range(1, n):
+        j = rng.randrange(i)
+        edges.append([keys[i], keys[j], None])
+        seen.add(frozenset((keys[i], keys[j])))
+    for _ in range(rng.randint(0, 3)):
+        a, b = rng.sample(keys, 2)
+        if frozenset((a, b)) not in seen:
+            seen.add(frozenset((a, b)))
+            edges.append([a, b, None])
+    rng.shuffle(edges)
+    for e in edges:
+        e[2] = rng.choice([1, 1, 1, 2, 2, 2, 2.0, 1.5, 3])
+        if rng.random() < 0.5:
+            e[0], e[1] = e[1], e[0]
+    return {'raw': {'nodes': nodes, 'edges': edges}, 'kind': 'unjudged:raw-graph', 'judged': False,
+            's': 'raw graph', 'mol': {'atoms': [], 'bonds': [], 'stereo': [], 'side': [], 'chiral': [], 'rel': []}}
+
+
 class C15(common.Prop):
     id = 'C15'
     level = 'proof'
@@ -606,14 +662,52 @@ class C15(common.Prop):
                 continue
             vs = variants_of(m, rng, budget=min(60, n - len(out)))
             out += vs
+            # correspondence-only cases (never judged): ambiguous renderings, damaged marks, raw graphs
+            extra = []
+            bonds = [tuple(sorted(fs)) for fs in m.order if not m.marked(*tuple(fs))]
+            for _ in range(max(1, len(vs) // 8)):
+                cut = rng.sample(bonds, min(len(bonds), rng.randint(0, 2)))
+                v = make_variant(m, rng, cut, kind='unjudged:any-rendering', check=False)
+                if v['ambiguous']:
+                    v['judged'] = False
+                    extra.append(v)
+            for v in rng.sample(vs, min(len(vs), max(1, len(vs) // 10))):
+                d = damaged(v, rng)
+                if d is not None:
+                    extra.append(d)
+            for _ in range(max(2, len(vs) // 6)):
+                extra.append(raw_graph_case(rng))
+            out += extra
         return out[:n]
 
     def describe(self, case):
-        return {'s': case['s'], 'mol': case['mol'], 'kind': case.get('kind', '')}
+        d = {'s': case['s'], 'mol': case['mol'], 'kind': case.get('kind', '')}
+        for k in ('raw', 'judged'):
+            if k in case:
+                d[k] = case[k]
+        return d
 
     def run_impl(self, case):
         import cgsmiles.resolve as R
         rec = {}
+        if 'raw' in case:
+            from cgsmiles.pysmiles_utils import annotate_ez_isomers_cgsmiles
+            g = nx.Graph()
+            for k, d in case['raw']['nodes']:
+                d = dict(d)
+                if 'ez_isomer' in d:
+                    d['ez_isomer'] = [tuple(t) for t in d['ez_isomer']]
+                g.add_node(k, **d)
+            for a, b, o in case['raw']['edges']:
+                g.add_edge(a, b, order=o)
+            rec['before_lit'] = graph_lit(g)
+            rec['before'] = graph_json(g)
+            try:
+                annotate_ez_isomers_cgsmiles(g)
+                rec['after_lit'] = graph_lit(g)
+            except Exception as exc:
+                rec['exc'] = type(exc).__name__
+            return rec
         orig = R.annotate_ez_isomers_cgsmiles
 
         def wrapped(molecule):
@@ -654,12 +748,14 @@ class C15(common.Prop):
         return rec
 
     def nontrivial(self, case, impl):
-        return 'ret' in impl
+        return 'ret' in impl or 'raw' in case
 
     def case_class(self, case, impl):
         k = case.get('kind', '?')
         m = case['mol']
         tag = '%s db=%d chiral=%d' % (k, len(m['stereo']), min(len(m['chiral']), 2))
+        if 'raw' in case:
+            return 'unjudged:raw-graph ' + ('ok' if 'after_lit' in impl else str(impl.get('exc')))
         if 'raised' in impl:
             tag += ' RAISED'
         elif 'before' in impl and in_class_py(impl['before']):
@@ -667,7 +763,7 @@ class C15(common.Prop):
         return tag
 
     def known_class(self, case, impl, code):
-        if code == 4 and 'before' in impl and in_class_py(impl['before']):
+        if code == 4 and case.get('judged', True) and 'before' in impl and in_class_py(impl['before']):
             return 'second_anchor_ligand_lower'
         return None
 
@@ -682,9 +778,9 @@ class C15(common.Prop):
         after = impl.get('after_lit')
         ret = impl.get('ret_lit')
         ident = impl.get('ident')
-        return ('{| c_before := %s; c_after := %s; c_ret := %s; c_atoms := %s; c_bonds := %s; c_ident := %s; '
-                'c_chiral := %s; c_rel := %s |}'
-                % ('(Some %s)' % before if before else 'None',
+        return ('{| c_judged := %s; c_before := %s; c_after := %s; c_ret := %s; c_atoms := %s; c_bonds := %s; '
+                'c_ident := %s; c_chiral := %s; c_rel := %s |}'
+                % (lit.b(case.get('judged', True)), '(Some %s)' % before if before else 'None',
                    '(Some %s)' % after if after else 'None',
                    '(Some %s)' % ret if ret else 'None',
                    atoms, bonds,
@@ -697,6 +793,8 @@ class C15(common.Prop):
 
 def py_oracle(case, impl):
     """the clauses in Python (development aid and fall-back when the Coq side cannot be built)"""
+    if not case.get('judged', True):
+        return 0
     if 'ret' not in impl:
         return 9
     if impl.get('ident') is None:
